@@ -51,7 +51,7 @@ var c04an2Shapes = []string{
 // set ids as exportNode interns them: content hash, depth first
 func c04an2Sets(n *syntax.RegexNode, ids map[string]int, out *[]*syntax.CharSet) {
 	if n.Set != nil && (n.T == ntSet || n.T == ntSetloop || n.T == ntSetlazy || n.T == 45) {
-		key := string(n.Set.Hash())
+		key := setKey(n.Set)
 		if _, ok := ids[key]; !ok {
 			ids[key] = len(*out)
 			*out = append(*out, n.Set)
@@ -178,7 +178,7 @@ func legC04Analysis2(c *Ctx) {
 			if cs == nil {
 				return -1
 			}
-			id, ok := ids[string(cs.Hash())]
+			id, ok := ids[setKey(cs)]
 			if !ok {
 				return -2
 			}
